@@ -88,7 +88,7 @@ example : ((heapPop ex (by decide)).1.seq, (heapPop ex (by decide)).2.toList.map
 def Rel (s : SBH) (t : SB) : Prop :=
   s.next = t.next ∧ s.buf = t.buf ∧ s.out = t.out ∧ s.closed = t.closed ∧ s.heap.toList.Perm t.heap
 
-/-- FULL bridge (stated, not proved in this round): from related states — reachable array, sorted abstract list, and no two
+/-- FULL bridge (proved in `Props/C02HeapBridge.lean`: `c02_heap_bridge`): from related states — reachable array, sorted abstract list, and no two
 *different* frames with the same `Seq` among the stored frames and the arriving one (identical copies are allowed) —
 `streamBuffer.Write` over the array heap and over the abstract store give the same result and related states. -/
 def c02_heap_bridge_full : Prop :=
